@@ -52,6 +52,9 @@ def loop_source(loop: ast.For) -> Tuple[Optional[str], Optional[ast.AST], Option
     return None, sl, idx
 
 
+LATER_RULES = ' Later rule: (R10.9) a rule that moves a definition and rewrites its references uses one transaction value.'
+
+
 def check(prog: Program, tier: str) -> Result:
     res = Result(
         "C10",
@@ -69,6 +72,7 @@ def check(prog: Program, tier: str) -> Result:
             "semantics, arithmetic inside Range.overlaps callers other than the pair-enumeration slice."),
         rule_text="instances = insertion sites, overlap tests, sort/iteration sites and call sequences of the scheduler; all carry obligations",
     )
+    res.explanation += LATER_RULES
     res.trusted_base = ["CPython ast", "sa/pathcond.py", "sa/sched.py shape reader",
                         "anchors processing._schedule_rewrites, _apply_rewrites, fix, chain, _Transaction, core.Range.overlaps"]
     S = Scheduler(prog)
